@@ -119,7 +119,11 @@ def gen_case(cseed: int, tier: str) -> dict[str, Any]:
         n = gen_len(w, big_left > 0)
         if n >= 60000:
             big_left -= 1
-        if ops and w.random() < 0.25:
+        if ops and w.random() < 0.15:
+            # the very same block again (same address, same bytes) - typically after an overlapping write
+            ops.append(dict(w.choice(ops)))
+            continue
+        if ops and w.random() < 0.3:
             # overlap / adjacency / repeat relative to an earlier block
             prev = w.choice(ops)
             a = prev["addr"] + w.choice([0, prev["len"], prev["len"] - 1, -n, 1 - n, prev["len"] // 2])
@@ -165,6 +169,15 @@ def plan(tier: str) -> dict[str, Any]:
                             "meta": {"family": "boundary"},
                         }
                     )
+    # systematic family: block A, an overlapping block B, then A again (the writer must not
+    # remember, merge away or reorder anything: the last write wins)
+    for header in (False, True):
+        for stream in ("bytesio", "file"):
+            for a_addr, a_len, b_off, b_len in ((0x8000, 4, 2, 1), (0x8000, 4, -2, 4), (0x8000, 300, 100, 50), (0x10000, 70000, 65530, 10), (0x8000, 4, 0, 4), (0x8000, 1, 0, 1)):
+                a = {"addr": a_addr, "len": a_len, "fill": 11}
+                b = {"addr": a_addr + b_off, "len": b_len, "fill": 12}
+                for hist in ([a, b, dict(a)], [a, b, dict(a), dict(b)], [a, dict(a)], [a, b, {"addr": 0x20, "len": 2, "fill": 13}, dict(a)]):
+                    fixed.append({"header": header, "ops": [dict(x) for x in hist], "stream": stream, "bufsize": 64, "short_writes": None, "fault": None, "meta": {"family": "aba"}})
     return {"fixed": fixed, "seeded": 6000 if tier == "quick" else 0, "chunk": 40, "wall_cap_s": 200, "minimise_s": 25}
 
 
